@@ -204,6 +204,60 @@ def run(ctx):
     ctx.require(len(_hits) >= 1, "no comparison of a case-normalised option string found (configure_post_rescaling expected)")
     for _f, _n, _ok, _why in _hits:
         ctx.ob("R-NORM", "C20.3", _f, "an option that is looked up case-insensitively is compared with its literal values under the same normalisation", _ok, _why, node=_n)
+    # ---- every stopping criterion is tested in the direction in which it converges ---------------------------------------
+    # (an option whose test can only be met at the start of a run, or never, neither terminates as configured nor is
+    # rejected up front)
+    _dir = {
+        "ratio": ("down", "log evidence in the live points relative to the total: shrinks as the run converges"),
+        "ratio_ns": ("down", "same ratio against the nested samples only"),
+        "Z_err": ("down", "exp of the log-evidence error: shrinks towards 1"),
+        "log_dZ": ("down", "change of log Z between iterations: shrinks"),
+        "fractional_error": ("down", "evidence error / evidence: shrinks"),
+        "ess": ("up", "effective number of posterior samples: grows with every level, so 'reached' means ess >= tolerance"),
+    }
+    ins_c = prog.cls(tables.INS)
+    al_ = next((s_.value for s_ in ins_c.node.body if isinstance(s_, ast.Assign) and any(isinstance(t_, ast.Name) and t_.id == "stopping_criterion_aliases" for t_ in s_.targets)), None)
+    crit_names = []
+    if isinstance(al_, ast.Call):
+        crit_names = [k_.arg for k_ in al_.keywords]
+    elif isinstance(al_, ast.Dict):
+        crit_names = [k_.value for k_ in al_.keys if isinstance(k_, ast.Constant)]
+    ctx.require(len(crit_names) >= 6, "stopping_criterion_aliases table not found")
+    rt_ = [f_ for f_ in prog.all_functions if f_.cls is ins_c and f_.name == "reached_tolerance"][0]
+    cmps_ = [n_ for n_ in walk_no_nested(rt_.node) if isinstance(n_, ast.Compare) and len(n_.ops) == 1 and isinstance(n_.ops[0], (ast.Lt, ast.LtE, ast.Gt, ast.GtE)) and {type(x_) for x_ in (n_.left, n_.comparators[0])} == {ast.Name}]
+    ctx.require(bool(cmps_), "reached_tolerance: comparison of criterion and tolerance not found")
+
+    def _dir_of(cmp_, crit_var, tol_var):
+        l_, r_ = cmp_.left.id, cmp_.comparators[0].id
+        down = isinstance(cmp_.ops[0], (ast.Lt, ast.LtE))
+        if (l_, r_) == (tol_var, crit_var):
+            down = not down
+        return "down" if down else "up"
+
+    zips_ = [n_ for n_ in walk_no_nested(rt_.node) if isinstance(n_, ast.comprehension) and isinstance(n_.iter, ast.Call) and src(n_.iter.func) == "zip" and isinstance(n_.target, ast.Tuple)]
+    for name_ in crit_names:
+        want_, why_ = _dir.get(name_, (None, "criterion not in the reviewed direction table"))
+        got_ = set()
+        for z_ in zips_:
+            srcs_ = [src(a_) for a_ in z_.iter.args]
+            tv_ = [e_.id for e_ in z_.target.elts if isinstance(e_, ast.Name)]
+            if "self.criterion" not in srcs_ or "self.tolerance" not in srcs_ or len(tv_) != len(srcs_):
+                continue
+            cv_, tlv_ = tv_[srcs_.index("self.criterion")], tv_[srcs_.index("self.tolerance")]
+            for c_ in cmps_:
+                if {c_.left.id, c_.comparators[0].id} != {cv_, tlv_}:
+                    continue
+                # a per-criterion selection `A if <name var> == "<crit>" else B`
+                sel_ = next((x_ for x_ in walk_no_nested(rt_.node) if isinstance(x_, ast.IfExp) and any(y_ is c_ for y_ in ast.walk(x_)) and isinstance(x_.test, ast.Compare) and any(isinstance(k_, ast.Constant) and k_.value in crit_names for k_ in ast.walk(x_.test))), None)
+                if sel_ is not None:
+                    lits_ = {k_.value for k_ in ast.walk(sel_.test) if isinstance(k_, ast.Constant)}
+                    in_body = any(y_ is c_ for y_ in ast.walk(sel_.body))
+                    eq_ = isinstance(sel_.test.ops[0], (ast.Eq, ast.In))
+                    applies = (name_ in lits_) == (in_body == eq_)
+                    if not applies:
+                        continue
+                got_.add(_dir_of(c_, cv_, tlv_))
+        ctx.ob("R-REG", "C20.3", rt_, f"stopping criterion `{name_}` is met in the direction in which it converges ({want_}: {why_})", got_ == {want_}, f"tested as {sorted(got_)}")
     ctx.floor("C20.3", 60)
     ctx.floor("C20.5", 6)
 
